@@ -101,10 +101,11 @@ def _run_chunk(arg):
             agg.update(r.extra)
         for v in r.viols:
             if len(viols) < 40:
-                viols.append((idx, case, v))
+                # tagged JSON, not live objects: a witness holding an unpicklable value must not kill the result pipe
+                viols.append((idx, codec.enc(case), codec.enc(v)))
             agg['violations_raw'] += 1
         if r.sample is not None and len(samples) < 2:
-            samples.append(r.sample)
+            samples.append(codec.enc(r.sample))
     return agg, outcomes, viols, samples, keys
 
 
@@ -189,7 +190,7 @@ class Ctx(object):
                 keys.update((part, x) for x in k)
                 for idx, case, detail in v:
                     if len(self.violations) - nviol_before < int(os.environ.get('VERIF_MAXVIOL', '400')):
-                        self.violations.append((part, idx, case, detail))
+                        self.violations.append((part, idx, codec.dec(case), codec.dec(detail)))
                 if len(samples) < 3:
                     samples.extend(s[:3 - len(samples)])
                 if time_cap and time.time() - t0 > time_cap:
@@ -220,7 +221,7 @@ class Ctx(object):
         self.nontrivial_keys.update(keys)
         for s in samples:
             if len(self.samples) < 12:
-                self.samples.append({'part': part, 'case': codec.enc(s)})
+                self.samples.append({'part': part, 'case': s})        # already tagged JSON (encoded in the worker)
         return summ
 
     def add_violation(self, part, case, detail, idx=-1):
